@@ -184,6 +184,9 @@ func streamEngine(seed uint64, n int, driver, corpus, dump, variant string) (*Su
 		switch variant {
 		case "fmt":
 			g.FmtModes = true
+		case "share":
+			g.Share = true
+			g.CatchBias = i%2 == 0
 		case "catch":
 			g.CatchBias = true
 		case "noposts":
